@@ -2,10 +2,14 @@
    model (DistSolve.v, which builds on Krylov.v), the PMIS model (Pmis.v) and the model of the distributed
    smoothed aggregation (DistSa.v) to OCaml.  Directives: ExtractCommon.v.
    StaticMat / BlockInst: the static_matrix<T,b,b> Scalar instance; DistSa.v is run at BlockInst.BlockS QcS b by
-   ocaml/distsolve/ops_distsa.ml (block value types). *)
+   ocaml/distsolve/ops_distsa.ml (block value types).
+   DistRelax: the smoothers under MPI (runtime wrapper) rank by rank, with the serial smoother models it is built from
+   (Relax, Cheby, Ilu, Spai1 + DenseSolve for the exact least-squares solve); ocaml/distsolve/ops_distrelax.ml. *)
 From Amgcl Require Import ExtractCommon.
 From Coq Require Import QArith Qcanon.
 From Amgcl Require Import Scalar QcInst Vec Crs Kernels MatOps Dist Krylov DistSolve PmisSpec Pmis DistSa Inverse StaticMat BlockInst.
+From Amgcl Require Import Relax Cheby Ilu DenseSolve Spai1 DistRelax.
 Separate Extraction
   QcInst.QcS Scalar.is_zero Scalar.smax Scalar.smin
-  Vec Crs Kernels MatOps Dist DistSolve PmisSpec Pmis DistSa StaticMat BlockInst.
+  Vec Crs Kernels MatOps Dist DistSolve PmisSpec Pmis DistSa StaticMat BlockInst
+  Relax Cheby Ilu DenseSolve Spai1 DistRelax.
